@@ -48,6 +48,16 @@ def expr_programs(tier):
                       "s %s w %s p" % (o1, o2)):
                 if emit(e):
                     yield e
+    if tier == "thorough":
+        tri = ["+", "-", "*", "/", "**", "%", "<<", "&", "==", "<", "and", "or"]
+        for o1 in tri:
+            for o2 in tri:
+                for o3 in tri:
+                    for shape in ("x %s y %s z %s x", "(x %s y) %s (z %s x)", "x %s (y %s z) %s x", "x %s (y %s (z %s x))", "((x %s y) %s z) %s x",
+                                  "p %s q %s n %s p", "p %s (q %s n) %s p", "x %s y %s p %s q"):
+                        e = shape % (o1, o2, o3)
+                        if emit(e):
+                            yield e
     for u in UN_I + UN_B:
         for o in allops:
             for e in ("%s x %s y" % (u, o), "%s (x %s y)" % (u, o), "x %s %s y" % (o, u), "%s p %s q" % (u, o), "%s (p %s q)" % (u, o), "p %s %s q" % (o, u),
